@@ -1,4 +1,5 @@
 import GlyModel.Api.Convert
+import GlyProofs.Api.HeapLemmas
 /-
   C11 — Conversions do not influence each other or the host process. (Property theorems only.)
 -/
@@ -50,5 +51,38 @@ theorem C11_history_logger (par conv) (calls : List (Option Input × Option (Lis
 theorem C11_caller_list_read_only (single : Option Input) (list : List Input) :
     preprocess single (some list) none = single.toList ++ list := by
   simp [preprocess]
+
+open Gly.Heap in
+/-- **The class-level table is never changed by open-form conversions**, whatever the history: with the `copy.copy` that
+    `check_for_open_form` takes, after any finite sequence of open-form rewrites (any keys, any rewrites – `-ol`, `-onic`,
+    `-aric`, `-ulosonic`, lengthening; existing or missing keys) every key of the table reads what it read at the start. -/
+theorem C11_tables_frame (ops : List (List Char × (Smiles → Smiles))) (w : Gly.Heap.World) (hw : WFW w) :
+    let w' := ops.foldl (fun w op => (openForm true op.1 op.2 w).1) w
+    w'.table = w.table ∧ ∀ k, w'.read k = w.read k := by
+  induction ops generalizing w with
+  | nil => simp
+  | cons op ops ih =>
+    simp only [List.foldl]
+    obtain ⟨ht, hr, hw'⟩ := openForm_copy_frame w hw op.1 op.2
+    obtain ⟨ht2, hr2⟩ := ih (openForm true op.1 op.2 w).1 hw'
+    exact ⟨ht2.trans ht, fun k => (hr2 k).trans (hr k)⟩
+
+open Gly.Heap in
+/-- Hence an open-form conversion gives the same result after any history as in the initial state. -/
+theorem C11_open_form_history_independent (ops : List (List Char × (Smiles → Smiles))) (w : Gly.Heap.World) (hw : WFW w)
+    (k : List Char) (rw : Smiles → Smiles) :
+    (openForm true k rw (ops.foldl (fun w op => (openForm true op.1 op.2 w).1) w)).2 = (openForm true k rw w).2 := by
+  obtain ⟨_, hr⟩ := C11_tables_frame ops w hw
+  rw [openForm_copy_result, openForm_copy_result, hr k]
+
+open Gly.Heap in
+/-- The copy is what makes this true: without it (assigning to the table's own record) a two-step history suffices to
+    change what a later conversion reads – `Glc-onic` followed by `Glc-ol` would return the acid. -/
+theorem C11_without_copy_counterexample :
+    let w : Gly.Heap.World := ⟨[(1, "OCC(O)CO".toList)], [("GLC-OL".toList, 1)]⟩
+    let onic : Smiles → Smiles := fun s => "OC(=O)".toList ++ s.drop 2
+    ((openForm false "GLC-OL".toList id (openForm false "GLC-OL".toList onic w).1).2 ≠ (openForm false "GLC-OL".toList id w).2) ∧
+    ((openForm true "GLC-OL".toList id (openForm true "GLC-OL".toList onic w).1).2 = (openForm true "GLC-OL".toList id w).2) := by
+  decide
 
 end Gly.Props.C11
